@@ -42,13 +42,16 @@ PayVal(pay, col) == IF \E i \in DOMAIN pay : pay[i].col = col
                     THEN pay[CHOOSE i \in DOMAIN pay : pay[i].col = col].v ELSE ZeroTok(col)
 RowPairs(pay) == [i \in DOMAIN AllCols |-> P(AllCols[i], PayVal(pay, AllCols[i]))]
 \* a record of the soft-delete model also inserts its (NULL) deleted_at
-SoftRow(prog) == IF prog.soft THEN <<P("deleted_at", NullTok)>> ELSE <<>>
+\*  ... and its integer tracked times (milliseconds / seconds of the fixed now)
+SoftRow(prog) == IF prog.soft THEN <<P("deleted_at", NullTok), P("created_ms", prog.nowms), P("updated_s", prog.nows)>> ELSE <<>>
+\* a hook-running update of the soft-delete model refreshes its tracked update time
+SoftTouch(prog) == IF prog.soft THEN <<P("updated_s", prog.nows)>> ELSE <<>>
 PayPairs(pay) == [i \in DOMAIN pay |-> P(pay[i].col, pay[i].v)]
 
 \* target: "q" / "d" dummy dialects with the default clause builders, "real" SQLite
 FinPairs(prog, target) ==
   LET fin == prog.fin IN
-  CASE fin.kind \in {"update", "updates", "updates_map", "update_returning"} -> PayPairs(fin.pay)
+  CASE fin.kind \in {"update", "updates", "updates_map", "update_returning"} -> PayPairs(fin.pay) \o SoftTouch(prog)
     [] fin.kind = "create" -> RowPairs(fin.pay) \o SoftRow(prog)
     [] fin.kind = "create_slice" -> RowPairs(fin.pay) \o SoftRow(prog) \o RowPairs(fin.pay2) \o SoftRow(prog)
     [] fin.kind = "create_map" -> PayPairs(fin.pay)
